@@ -157,7 +157,12 @@ def check_case(case, res, acc):
             else:
                 if seen303 and n in CONTENT_NAMES:
                     continue
-                if hm.get(n) != base[n]:
+                if hm.get(n) != base[n] and n in hm and ", ".join(hm[n]) == ", ".join(base[n]):
+                    # the same field lines combined into one line (or split again): RFC 9110 5.3 - same header,
+                    # same semantics (a ProxyManager rebuilds the mapping for forwarded requests)
+                    acc.counters["either_field_lines_combined"] += 1
+                    acc.counters["other_header_preserved"] += 1
+                elif hm.get(n) != base[n]:
                     bad("other-header-lost" if n not in hm else "other-header-changed", cross_hop,
                         {"request": j, "to": q["origin"], "header": n, "value": hm.get(n)}, {"value": base[n]})
                 else:
@@ -249,6 +254,10 @@ def configs(thorough):
         for cont in ("dict", "mgr+req"):
             for pl in policy_placements()[:3]:
                 out.append(("M", client, "canonical", cont, pl, "GET", 1))
+        # start on a non-default port: a scheme change then keeps host AND port (http://a.test:8080 -> https://a.test:8080),
+        # so nothing but the scheme tells the two origins apart
+        out.append(("M", client, "canonical", "dict", (NOT_GIVEN, NOT_GIVEN), "GET", 0, "hax"))
+        out.append(("M", client, "lower", "hd", (NOT_GIVEN, NOT_GIVEN), "GET", 0, "sax"))
     for client in ("HTTPConnectionPool", "ManagerPool"):
         for sp in SPELLINGS:
             for cont in CONTAINERS:
@@ -281,7 +290,7 @@ def chains_for(cfg, thorough):
 def make_case(cfg, hops):
     kind, client, sp, cont, pl, method = cfg[:6]
     post = method == "POST"
-    return {"client": client, "start": cfg[6] if kind == "P" else "had", "hops": hops, "mode": "c", "method": method,
+    return {"client": client, "start": cfg[6] if kind == "P" else (cfg[7] if len(cfg) > 7 else "had"), "hops": hops, "mode": "c", "method": method,
             "break_first": cfg[6] if kind == "M" else cfg[7],
             "body": b"payload" if post else None, "headers": header_list(sp, cont, post), "header_container": cont,
             "spelling": sp, "req_policy": pl[0], "ctor_policy": pl[1], "redirect_kw": NOT_GIVEN}
